@@ -1,8 +1,223 @@
 import Req.Driver.Proto
-/-! Driver lanes of C08. -/
-namespace Req.Driver.L.C08
-open Req.Proto
+import Req.Pool.Cancel
+/-!
+Driver lanes of C08.
 
-def lanes : List (String × (List String → String)) := []
+* `c08maperr <errNil> <canceled> <reqErr> <kind> <nothingWritten> <broken>` — the decision of
+  `persistConn.mapRoundTripError`.
+* `c08retry <maxRetries> <k1,k2,…>` — `Request.do`'s retry decision on a scripted sequence of
+  attempt results (`ok|canceled|deadline|other`): attempts made and the final result.
+* `c08life <stack> <tls> <bodyChunks> <respChunks> <maxRetries> <sleepFact> <autoRead> <events> <cancel> <obs>`
+  — the lifecycle model: replay the environment events the harness observed before the
+  injection point, cancel, explore EVERY maximal run of internal steps (then let a detached
+  background dial finish and, if the wait ignores the context, let the timer fire), and answer
+  with the observed outcome if the model allows it, else with the first outcome it does allow.
+-/
+namespace Req.Driver.L.C08
+open Req.Proto Req.Cancel
+
+def bit (s : String) : Option Bool :=
+  if s == "1" then some true else if s == "0" then some false else none
+
+def laneMapErr : List String → String
+  | [a, b, c, d, e, f] =>
+    match bit a, bit c, bit e, bit f with
+    | some errNil, some reqErr, some nw, some broken =>
+      let canceled : Option (Option CtxErr) :=
+        if b == "0" then some none else if b == "1" then some (some .canceled)
+        else if b == "2" then some (some .deadline) else none
+      let kind : Option ErrKind :=
+        if d == "0" then some .serverClosedIdle else if d == "1" then some .readFromServer
+        else if d == "2" then some .other else none
+      match canceled, kind with
+      | some cn, some k =>
+        match mapRoundTripError ⟨errNil, cn, reqErr, k, nw, broken⟩ with
+        | .nil => "nil"
+        | .canceled .canceled => "canceled"
+        | .canceled .deadline => "deadline"
+        | .reqErr => "reqErr"
+        | .serverClosedIdle => "serverClosedIdle"
+        | .nothingWritten => "nothingWritten"
+        | .plain => "plain"
+        | .brokenWrapped => "brokenWrapped"
+      | _, _ => "bad-op"
+    | _, _, _, _ => "bad-op"
+  | _ => "bad-op"
+
+def parseResult (s : String) : Option Result :=
+  if s == "ok" then some .ok
+  else if s == "canceled" then some (.ctxErr .canceled)
+  else if s == "deadline" then some (.ctxErr .deadline)
+  else if s == "other" then some .netErr
+  else none
+
+def showResult : Result → String
+  | .pending => "pending"
+  | .ok => "ok"
+  | .ctxErr .canceled => "canceled"
+  | .ctxErr .deadline => "deadline"
+  | .h3Canceled => "h3cancel"
+  | .netErr => "other"
+
+/-- run `finish` over a scripted list of attempt results -/
+def retryLoop (cfg : Cfg) : List Result → St → Nat → String
+  | [], _, n => s!"attempts={n} exhausted"
+  | r :: rest, s, n =>
+    let s' := finish cfg s r
+    if s'.phase == .done then s!"attempts={n + 1} final={showResult s'.result}"
+    else retryLoop cfg rest s' (n + 1)
+
+def laneRetry : List String → String
+  | [m, ks] =>
+    match m.toNat?, (ks.splitOn ",").mapM parseResult with
+    | some mr, some rs => retryLoop { stack := .h1, maxRetries := mr } rs {} 0
+    | _, _ => "bad-op"
+  | _ => "bad-op"
+
+def parseStack (s : String) : Option Stack :=
+  if s == "h1" then some .h1 else if s == "h2" then some .h2 else if s == "h3" then some .h3 else none
+
+def parseEv (s : String) : Option Ev :=
+  if s == "connIdle" then some .connIdle
+  else if s == "dialStart" then some .dialStart
+  else if s == "dialDone" then some .dialDone
+  else if s == "hsDone" then some .hsDone
+  else if s == "wrote" then some .wrote
+  else if s == "gotHeaders" then some .gotHeaders
+  else if s == "gotBody" then some .gotBody
+  else if s == "attemptFails" then some .attemptFails
+  else if s == "sleepElapse" then some .sleepElapse
+  else none
+
+/-- a trace token: an environment event, or `inflight` = "the request is on its connection"
+(observed on h3, where the arrival of the request head at the peer is not a model event) -/
+inductive Tok | ev (e : Ev) | inflight
+
+def parseTok (s : String) : Option Tok :=
+  if s == "inflight" then some .inflight else (parseEv s).map .ev
+
+/-- replay one observed token; the internal pick-up of a delivered connection is implicit -/
+def replay1 (cfg : Cfg) (s : St) : Tok → Option St
+  | .ev e =>
+    if evGuard cfg s e then some (evApply cfg s e)
+    else if guard cfg s .deliver then
+      let s' := apply cfg s .deliver
+      if evGuard cfg s' e then some (evApply cfg s' e) else none
+    else none
+  | .inflight =>
+    if guard cfg s .deliver then some (apply cfg s .deliver)
+    else if s.phase.inflight || s.phase.body then some s else none
+
+def replay (cfg : Cfg) : St → List Tok → Option St
+  | s, [] => some s
+  | s, e :: es => match replay1 cfg s e with
+    | some s' => replay cfg s' es
+    | none => none
+
+/-- after the internal steps are exhausted: a detached background dial finishes, a context-blind
+sleep ends with its timer; then internal steps again -/
+def settle (cfg : Cfg) : Nat → St → List St
+  | 0, s => [s]
+  | fuel + 1, s =>
+    (finals cfg 24 s).flatMap fun t =>
+      if evGuard cfg t .dialDone && !t.phase.preConn then settle cfg fuel (evApply cfg t .dialDone)
+      else if evGuard cfg t .hsDone && false then [t]
+      else if t.phase == .retrySleep && evGuard cfg t .sleepElapse then
+        settle cfg fuel (evApply cfg t .sleepElapse)
+      else [t]
+
+structure Outcome where
+  res : String
+  body : String
+  conn : String
+  rst : String
+  sleeps : String
+  deriving BEq
+
+def outcomeOf (cfg : Cfg) (s0 t : St) : Outcome :=
+  { res := if t.phase == .done then showResult t.result else "running",
+    body := if t.res.bodyOpen then "open"
+            else if cfg.bodyChunks == 0 then "none"
+            else if t.res.closes == 1 then "closed1" else s!"closed{t.res.closes}",
+    conn := match t.res.conn with
+      | .pooled => "reuse"
+      | .none | .closed => "new"
+      | .bgDial => "dialing"
+      | .ready | .owned => "held",
+    rst := if t.res.stream == .reset then "1" else "0",
+    sleeps := toString (t.sleepsDone - s0.sleepsDone) }
+
+def Outcome.show (o : Outcome) : String :=
+  s!"res={o.res} body={o.body} conn={o.conn} rst={o.rst} sleeps={o.sleeps}"
+
+def fieldOf (pref : String) (tok : String) : Option String :=
+  if tok.startsWith pref then some ((tok.drop pref.length).toString) else none
+
+def parseObs : List String → Option Outcome
+  | [a, b, c, d, e] => do
+    let res ← fieldOf "res=" a
+    let body ← fieldOf "body=" b
+    let conn ← fieldOf "conn=" c
+    let rst ← fieldOf "rst=" d
+    let sleeps ← fieldOf "sleeps=" e
+    pure { res, body, conn, rst, sleeps }
+  | _ => none
+
+def fieldMatch (obs model : String) : Bool := obs == "?" || obs == model
+
+def Outcome.matches (obs m : Outcome) : Bool :=
+  fieldMatch obs.res m.res && fieldMatch obs.body m.body && fieldMatch obs.conn m.conn &&
+  fieldMatch obs.rst m.rst && fieldMatch obs.sleeps m.sleeps
+
+def laneLife : List String → String
+  | stack :: tls :: bc :: rc :: mr :: fact :: auto :: evs :: cancel :: obs =>
+    let racy := evs.endsWith "~"
+    let evs := if racy then (evs.dropEnd 1).toString else evs
+    match parseStack stack, bit tls, bc.toNat?, rc.toNat?, mr.toNat?, bit fact, bit auto,
+          (if evs == "-" then some [] else (evs.splitOn ",").mapM parseTok), parseObs obs with
+    | some st, some tl, some b, some r, some m, some f, some au, some es, some ob =>
+      let cfg : Cfg := { stack := st, tls := tl, bodyChunks := b, respChunks := r, maxRetries := m,
+                         sleepSelectsCtx := f, autoRead := au }
+      -- `timeout` = the deadline is http.Client's Timeout: its timer goroutine and the context
+      -- deadline race, so a later body-read error is or is not rewritten by cancelTimerBody —
+      -- both variants of the model are explored
+      let cfgs : List Cfg := if cancel == "timeout" then [{ cfg with clientTimer := true }, cfg] else [cfg]
+      let kind : Option CtxErr :=
+        if cancel == "canceled" then some .canceled
+        else if cancel == "deadline" || cancel == "timeout" then some .deadline
+        else none
+      -- a trailing `~` on the trace: the response events were observed at the PEER (sent); the
+      -- client may lag behind by any number of them — every such state is explored
+      let isResp : Tok → Bool
+        | .ev .gotHeaders | .ev .gotBody => true
+        | _ => false
+      let nResp := (es.reverse.takeWhile isResp).length
+      let alts : List St := if racy then
+          (List.range nResp).filterMap fun k => replay cfg (init cfg) (es.take (es.length - (k + 1)))
+        else []
+      match kind, replay cfg (init cfg) es with
+      | some k, some s =>
+        -- a connection delivered before the harness observed the next step may or may not have
+        -- been picked up: both orders are explored (the pick-up is an internal action)
+        if evGuard cfg s (.cancel k) then
+          let outs := cfgs.flatMap fun cfg => (s :: alts).flatMap fun t =>
+            if evGuard cfg t (.cancel k) then (settle cfg 6 (evApply cfg t (.cancel k))).map (outcomeOf cfg t)
+            else []
+          match outs.find? (Outcome.matches ob) with
+          | some _ => Outcome.show ob
+          | none => match outs with
+            | o :: _ => Outcome.show o
+            | [] => "no-outcome"
+        else "cancel-not-enabled"
+      | none, _ => "bad-op"
+      | _, none => "bad-trace"
+    | _, _, _, _, _, _, _, _, _ => "bad-op"
+  | _ => "bad-op"
+
+def lanes : List (String × (List String → String)) := [
+  ("c08maperr", laneMapErr),
+  ("c08retry", laneRetry),
+  ("c08life", laneLife)
+]
 
 end Req.Driver.L.C08
